@@ -50,8 +50,20 @@ def explore(ch, params, out):
     cfg["dkr"] = ch.choose("dict_keys_regex", [None, "k", r"[kj]$"]) if params.get("dkr") else None
     # two decodings of the same genome: leaves from the chooser (symbolic under CrossHair) / fixed representatives
     mk = jsonsym.sample_from_descriptors if grammar else jsonsym.sample
-    samples_sym = [mk(ch, f"s{i}", cfg["kinds"][i], sym) for i in range(n)]
-    concrete = [mk(None, f"s{i}", cfg["kinds"][i], False) for i in range(n)]
+    # the constant key `fix` may be absent from some samples (so that a sample can be the empty object)
+    has_fix = [ch.flag(f"s{i}.has_fix_key") if params.get("optional_fix") else True for i in range(n)]
+    cfg["has_fix"] = has_fix
+
+    def build_all(c, symb):
+        res = []
+        for i in range(n):
+            o = mk(c, f"s{i}", cfg["kinds"][i], symb)
+            if not has_fix[i]:
+                o.pop("fix", None)
+            res.append(o)
+        return res
+    samples_sym = build_all(ch, sym)
+    concrete = build_all(None, False)
     out.info = {"cfg": cfg, "samples": concrete}
     kw = dict(str_registry=str_registry(cfg["registry"]), dkr=[cfg["dkr"]] if cfg["dkr"] else None,
               dkf=["a"] if cfg["dkf"] else None)
@@ -77,7 +89,7 @@ def explore(ch, params, out):
     if ir_sym is not None:
         native_ir = MetadataGenerator(str_types_registry=kw["str_registry"], dict_keys_regex=kw["dkr"],
                                       dict_keys_fields=kw["dkf"]).generate(*copy.deepcopy(concrete))
-        out.check(repr(oracles.canon_ir(ir_sym)) == repr(oracles.canon_ir(native_ir)), "ir_depends_on_leaf_values",
+        out.check(oracles.canon_str(oracles.canon_ir(ir_sym)) == oracles.canon_str(oracles.canon_ir(native_ir)), "ir_depends_on_leaf_values",
                   lambda: f"IR on arbitrary leaves {oracles.canon_ir(ir_sym)} != IR on representative leaves {oracles.canon_ir(native_ir)} for {concrete}",
                   "ir_depends_on_leaf_values")
     return {"samples": concrete, "gen": gen, "reg": reg, "cfg": cfg}
@@ -190,6 +202,12 @@ def parts(tier):
             CH("datetime", "vflib.props.c01:scen_accept",
                {"kinds": "KINDS_DATE", "samples": 2, "keys": ["a"], "registries": ["datetime"], "frameworks": ["pydantic", "dataclasses", "attrs"]},
                shards=12, timeout=170, path_timeout=30, mode="CH-E"),
+            CH("empty_samples", "vflib.props.c01:scen_accept",
+               {"kinds": "KINDS_SMALL", "samples": 2, "keys": ["a"], "optional_fix": True, "frameworks": ["pydantic", "dataclasses"], "layouts": ["flat"]},
+               shards=16, timeout=170, path_timeout=30, mode="CH-P+CH-E"),
+            CH("padded_pseudo_type_strings", "vflib.props.c01:scen_accept",
+               {"kinds": "KINDS_PAD", "samples": 2, "keys": ["a"], "frameworks": ["pydantic", "sqlmodel", "attrs"], "layouts": ["flat"], "symbolic_leaves": False},
+               shards=16, timeout=170, path_timeout=30, mode="CH-E"),
             CH("two_nested_fields", "vflib.props.c01:scen_accept",
                {"kinds": "KINDS_NEST", "samples": 1, "keys": ["a", "b"], "merge": ["default", "p50n2"]},
                shards=16, timeout=170, path_timeout=30, mode="CH-P+CH-E"),
